@@ -32,7 +32,9 @@ package tokenhelper
 //@ lemma converse-involution;C19 uses Converse :: (forall ((t Int)) (=> (isCmp t) (= (call Converse (call Converse t)) t)))
 //@ lemma inverse-involution;C19 uses Inverse :: (forall ((t Int)) (=> (isCmp t) (= (call Inverse (call Inverse t)) t)))
 
-//@ -- RelToCwd is used as a function of the file name (see C18 for its body)
+//@ -- C18: every persisted file name is the path relative to the working directory captured once at start-up
+//@ -- (filepath.Rel), or the name itself when no relative path exists. _cwd is written only by package initialisation.
 //@ func RelToCwd
+//@ prop C18 C14
 //@ pure
-//@ nobody
+//@ ensures relative-to-startup-cwd (= result (ite (relOK (global _cwd) filename) (relPath (global _cwd) filename) filename))
